@@ -32,6 +32,7 @@ inductive HType where
   | stream (t : HType)
   | set (t : HType)
   | dict (k v : HType)
+  | interval (t : HType)                 -- `tinterval(point_type)`: only as a table key type (C36 index joins); no values modelled
   | struct (fs : Fields)
   | tuple (ts : Types)
   deriving DecidableEq
